@@ -459,6 +459,26 @@ Conflicts(b) ==
      \/ \E k \in Keys : /\ BlockVersion(b, k) # NoRd /\ BlockVersion(b, k) \notin pool
                         /\ \/ (TX[u].reads[k] # NoRd /\ TX[u].reads[k] # BlockVersion(b, k))
                            \/ (TX[u].writes[k] # NoRd /\ u # BlockVersion(b, k))}
+(* processUnconfirmTxs after fix 835b00b, transcribed: besides Conflicts, a pending transaction is undone when a block
+   transaction read AND overwrote a key version it read (whether or not that block transaction was pending here);
+   descendants follow.  PlayRuleExact (design check, model-checked on the key-value and mixed families): on every
+   reachable state, for every block on the pointer that a node without this pool would play, the transcribed rule
+   leaves exactly the pool that IDEAL Play leaves (= what can be re-applied on the new chain state). *)
+Superseded(b) == {u \in pool \ TxsOf(b) : \E k \in Keys : /\ TX[u].reads[k] # NoRd
+                     /\ \E t \in TxsOf(b) : TX[t].writes[k] # NoRd /\ TX[t].reads[k] = TX[u].reads[k]}
+CodeUndone(b) == Descendants(Conflicts(b) \cup Superseded(b))
+IdealPoolAfterPlay(b) ==
+  LET undone == Descendants(Conflicts(b))
+      keep == pool \cap TxsOf(b)
+      base == UndoSet(St, undone)
+      r  == PlayBlock(base, b, keep, Height(b))
+      pool1 == (pool \ undone) \ keep
+      again == ReadmitStepsX(Rec(UndoSet(r.s, pool1), b, irr, {}), GoodOrder(pool1), LHeight, FALSE) IN
+  IF again = <<>> THEN {} ELSE again[Len(again)].pool
+PlayRuleExact ==
+  \A b \in 2..n : (Parent(b) = ptr /\ PlayBlock(UndoSet(St, pool), b, {}, Height(b)).ok
+                     /\ PlayBlock(UndoSet(St, Descendants(Conflicts(b))), b, pool \cap TxsOf(b), Height(b)).ok)
+                    => IdealPoolAfterPlay(b) = (pool \ CodeUndone(b)) \ TxsOf(b)
 (* obsres: the result observed on the real node ("ok" / "fail"; trace validation) or "*" (generation, MC).
    Known deviation KF_PoolMasksBlockOrder: PlayAndRepost validates the block's transactions against the
    stored state, which still contains the effects of the node's own pending transactions (those it
